@@ -102,6 +102,12 @@ fn dec<M: Machine>(b: Bits) -> f64 {
 
 /// Executes a fault trace. `known`: violation keys that are recorded but do not end the run.
 pub fn exec<M: Machine>(tr: &Trace, stats: &mut Stats, known: &BTreeSet<String>) -> (Vec<Violation>, Reach, Vec<(String, u64)>) {
+    exec_probe::<M>(tr, stats, known, None)
+}
+
+/// Like `exec`; additionally records the Debug fingerprint of the queried slot at every Query
+/// event (Engine B compares them with what its threads computed).
+pub fn exec_probe<M: Machine>(tr: &Trace, stats: &mut Stats, known: &BTreeSet<String>, mut probe: Option<&mut Vec<String>>) -> (Vec<Violation>, Reach, Vec<(String, u64)>) {
     let tapes = [tr.tapes[0].materialize(), tr.tapes[1].materialize()];
     let has_twin = matches!(M::TRANSFORM, Transform::Ln | Transform::Recip);
     let ttapes = if has_twin { [tapes[0].iter().map(|&b| M::twin_record(b)).collect(), Vec::new()] } else { [Vec::new(), Vec::new()] };
@@ -200,6 +206,9 @@ pub fn exec<M: Machine>(tr: &Trace, stats: &mut Stats, known: &BTreeSet<String>)
                 }
             }
             Event::Query { a, confs } => {
+                if let Some(p) = probe.as_deref_mut() {
+                    p.push(fw.w.get(*a).map(|s| M::fingerprint(&s.st)).unwrap_or_else(|| "<no such slot>".into()));
+                }
                 for v in query_checked::<M>(&fw, *a, confs, stats) {
                     record!(v);
                 }
